@@ -28,7 +28,7 @@ ASSUMPTIONS = [
     'HITRAN gaps: master temperature grid = union over ranges; inside a range\'s own temperature span linear interpolation, outside zero',
     'HDF5 cross-section files identify the molecule by their mol_name dataset (as written by ExoMol), which is generated already sanitised',
 ]
-REQUIRED = {'part:xsec': 0.1, 'part:ktable': 0.05, 'part:cia': 0.05, 'part:cache': 0.1}
+REQUIRED = {'cia:overlapping-ranges': 0.02, 'part:xsec': 0.1, 'part:ktable': 0.05, 'part:cia': 0.05, 'part:cache': 0.1}
 
 UNITS = {'bar': 1e5, 'Pa': 1.0, 'kPa': 1000.0, 'mbar': 100.0}
 NAMES = [('H2O', '1H2-16O'), ('CO2', '12C-16O2'), ('CH4', '12C-1H4'), ('NH3', 'NH3'), ('CO', 'CO'), ('TiO', '48Ti-16O')]
@@ -49,7 +49,7 @@ def _table(draw, nwn=None):
 
 @st.composite
 def _case(draw):
-    part = draw(st.sampled_from(['xsec', 'cache', 'ktable', 'cia', 'xsec', 'cache']))
+    part = draw(st.sampled_from(['cia', 'xsec', 'cache', 'ktable', 'cia', 'xsec', 'cache']))
     c = {'part': part, 'name': draw(st.integers(0, len(NAMES) - 1)), 'iso': draw(st.booleans()),
          'table': draw(_table()), 'tp': [[draw(st.floats(-0.3, 1.3)), draw(st.floats(-0.3, 1.3))] for _ in range(4)],
          'mode': draw(st.sampled_from(['linear', 'exp']))}
@@ -60,6 +60,7 @@ def _case(draw):
     if part == 'cia':
         c['pair'] = draw(st.sampled_from(['H2-H2', 'H2-He', 'N2-N2', 'CO2-CO2']))
         c['split'] = draw(st.sampled_from([False, True, True]))
+        c['interleave'] = draw(st.sampled_from([True, False]))
         c['subset'] = draw(st.lists(st.booleans(), min_size=3, max_size=3))
         c['negative'] = draw(st.booleans())
         c['block_order'] = draw(st.sampled_from(['descending', 'ascending', 'rotated']))
@@ -279,22 +280,29 @@ def check_cia(out, c, tmp):
     pair = c['pair']
     # ---- one range, all temperatures: pickle and HITRAN describe the same table ------------------------
     hit = os.path.join(tmp, '%s_2011.cia' % pair)
-    ranges = [(0, nW, list(range(len(Tg))))]
+    allw = np.arange(nW)
+    ranges = [(allw, list(range(len(Tg))))]
     if c['split'] and nW >= 4:
         h = nW // 2
         sub = [i for i in range(len(Tg)) if c['subset'][i % 3]] or [0]
-        ranges = [(0, h, list(range(len(Tg)))), (h, nW, sub)]
+        if c.get('interleave'):
+            # two ranges whose wavenumber spans overlap (their points interleave): HITRAN files do tabulate
+            # overlapping bands for different temperature sets; the unified axis is still ascending
+            ranges = [(allw[0::2], list(range(len(Tg)))), (allw[1::2], sub)]
+            out.cls('cia:overlapping-ranges')
+        else:
+            ranges = [(allw[:h], list(range(len(Tg)))), (allw[h:], sub)]
         out.cls('cia:split-ranges')
     with open(hit, 'w') as f:
-        for (a, b, temps) in ranges:
+        for (idx_, temps) in ranges:
             order_t = list(temps)
             if c.get('block_order') == 'descending':
                 order_t = order_t[::-1]
             elif c.get('block_order') == 'rotated' and len(order_t) > 1:
                 order_t = order_t[1:] + order_t[:1]
             for it in order_t:
-                f.write('%20s %9.3f %9.3f %6d %6.1f %9.3e %5.3f %27s %3d\n' % (pair, wn[a], wn[b - 1], b - a, Tg[it], abs(coef[it, a:b]).max(), -0.999, 'verif', 1))
-                for k in range(a, b):
+                f.write('%20s %9.3f %9.3f %6d %6.1f %9.3e %5.3f %27s %3d\n' % (pair, wn[idx_[0]], wn[idx_[-1]], len(idx_), Tg[it], abs(coef[it, idx_]).max(), -0.999, 'verif', 1))
+                for k in idx_:
                     f.write('%10.4f %.10e\n' % (wn[k], coef[it, k]))
     wn_file = np.array([float('%10.4f' % x) for x in wn])
     Tg_file = np.array([float('%6.1f' % x) for x in Tg])
@@ -317,15 +325,15 @@ def check_cia(out, c, tmp):
             T = Tall[0]
         if T >= Tall[-1]:
             T = Tall[-1]
-        for (a, b, temps) in ranges:
+        for (idx_, temps) in ranges:
             Ts = Tg_file[temps]
             order = np.argsort(Ts)
             Ts = Ts[order]
-            vals = si[np.array(temps)[order], a:b]
+            vals = si[np.array(temps)[order]][:, idx_]
 
             def at(Tq):
                 if Tq < Ts[0] or Tq > Ts[-1]:
-                    return np.zeros(b - a)
+                    return np.zeros(len(idx_))
                 j = int(np.searchsorted(Ts, Tq, side='right') - 1)
                 if j >= len(Ts) - 1:
                     return vals[-1]
@@ -334,10 +342,10 @@ def check_cia(out, c, tmp):
             # the unified table is defined on the master temperature grid, then interpolated linearly
             j = int(np.searchsorted(Tall, T, side='right') - 1)
             if j >= len(Tall) - 1:
-                res[a:b] = at(Tall[-1])
+                res[idx_] = at(Tall[-1])
             else:
                 f2 = (T - Tall[j]) / (Tall[j + 1] - Tall[j])
-                res[a:b] = at(Tall[j]) * (1 - f2) + at(Tall[j + 1]) * f2
+                res[idx_] = at(Tall[j]) * (1 - f2) + at(Tall[j + 1]) * f2
         return res
     Tq = [Tg_file.min() - 20.0, Tg_file.max() + 20.0] + [Tg_file.min() + a * (Tg_file.max() - Tg_file.min()) for a, _ in c['tp']] + list(Tg_file)
     for T in Tq:
